@@ -49,16 +49,38 @@ def main():
         meta["confirmed"]["baseline_tail"] = o2[-600:]
         dst = os.path.join(wt, place, "zz_seed_demo_test.go")
         shutil.copy(demo, dst)
-        rc3, o3 = sh(f"go test -count=1 -run 'Seed' ./{place}/ 2>&1 | tail -15", cwd=wt)
-        meta["confirmed"]["demo_fails_with_change"] = ("FAIL" in o3)
-        meta["confirmed"]["demo_with_change_tail"] = o3[-700:]
+        names = re.findall(r"^func (Test\w+)\(", open(demo).read(), re.M)
+        pat = "^(" + "|".join(names) + ")$" if names else "Seed"
+        flagsets = [""]
+        if prop == "C12":
+            flagsets = ["-race"]
+        if prop == "C15":
+            flagsets = ["", "-tags purego"]
+        fails, o3all = False, ""
+        for fl in flagsets:
+            rc3, o3 = sh(f"go test {fl} -count=1 -run '{pat}' ./{place}/ 2>&1 | tail -15", cwd=wt)
+            fails = fails or ("FAIL" in o3)
+            o3all += f"[{fl}] " + o3
+        meta["confirmed"]["demo_fails_with_change"] = fails
+        meta["confirmed"]["demo_with_change_tail"] = o3all[-900:]
         sh(f"git apply -R {patch}", cwd=wt)
-        rc4, o4 = sh(f"go test -count=1 -run 'Seed' ./{place}/ 2>&1 | tail -5", cwd=wt)
-        meta["confirmed"]["demo_passes_without_change"] = ("FAIL" not in o4 and "ok" in o4)
-        meta["confirmed"]["demo_without_change_tail"] = o4[-300:]
+        passes, o4all = True, ""
+        for fl in flagsets:
+            rc4, o4 = sh(f"go test {fl} -count=1 -run '{pat}' ./{place}/ 2>&1 | tail -5", cwd=wt)
+            passes = passes and ("FAIL" not in o4 and "ok" in o4 and "no tests to run" not in o4)
+            o4all += f"[{fl}] " + o4
+        meta["confirmed"]["demo_passes_without_change"] = passes
+        meta["confirmed"]["demo_without_change_tail"] = o4all[-400:]
+        meta["confirmed"]["demo_tests"] = names
     finally:
         sh(f"git -C /repo worktree remove --force {wt}")
         shutil.rmtree(wt, ignore_errors=True)
+    if "--confirm-only" in sys.argv and os.path.exists(os.path.join(out, "meta.json")):
+        old = json.load(open(os.path.join(out, "meta.json")))
+        old["confirmed"] = meta["confirmed"]
+        json.dump(old, open(os.path.join(out, "meta.json"), "w"), indent=1)
+        print(sid, "re-confirmed:", {k: v for k, v in meta["confirmed"].items() if isinstance(v, bool)})
+        return
     # Run the checks against a scratch worktree with the change applied (VERIF_REPO),
     # so that /repo stays untouched while other work goes on.
     wt2 = f"/tmp/seedrun/{sid}"
